@@ -14,7 +14,7 @@ from vk.registry import bounded, contract
 
 LEVEL = "proof"
 TRUSTED = [
-    "Log_SO3_A / Log_SE3_H are compared with the literal derivative of the Log formula w.r.t. the matrix entries on the regular branch (0 < angle, trace-cosine > -0.999); near half-turns the logarithm's derivative is singular",
+    "Log_SO3_A / Log_SE3_H are compared with the literal derivative of the regular Log formula w.r.t. the matrix entries for 0 < angle < pi (trace-cosine in (-1, 1)): against the real Log_SO3 where it uses that formula (trace-cosine > -0.999), against the formula written out as specification in the band (-1, -0.999] where Log_SO3 switches to its half-turn formula; at the half-turn itself the derivative is singular",
     "bounded stand-in oracle: the kit's symbolic derivative of the real map evaluated with mpmath at 50 digits",
 ]
 EXPLANATION = "QF_NRA obligations with the transcendental axiom table; tiny-angle rounding clause by bounded stand-in"
@@ -89,6 +89,45 @@ def c_log_A(k):
     k.covers(rot.Log_SO3_A, rot.Log_SO3)
     A = _regular_A(k)
     k.prove_eq("Log_SO3_A = dLog/dA", rot.Log_SO3_A(A), k.jac(lambda A_: rot.Log_SO3(A_), A), tol=1e-6)
+
+
+@contract("C03", "Log_SO3_A/between 3.0969 rad and a half-turn", timeout=180)
+def c_log_A_band(k):
+    """trace-cosine in (-1, -0.999]: Log_SO3 switches to its half-turn formula there (it reads the axis from the symmetric
+    part), Log_SO3_A does not and must not - the derivative stays the one of the regular formula
+    psi = angle / (2 sin angle) * axial(A - A^T) up to, but excluding, the half-turn (property: 0 <= |psi| < pi).
+    The regular formula is written out here as the specification."""
+    k.covers(rot.Log_SO3_A)
+    import cardillo.math.rotations as r_
+
+    def samp(g):
+        v = g.normal(size=3)
+        v = v / np.linalg.norm(v) * g.uniform(3.098, 3.13)
+        return r_.Exp_SO3(v) + 1e-5 * g.normal(size=(3, 3))
+
+    A = k.reals("A", (3, 3), sample=samp)
+    ca = 0.5 * (A[0, 0] + A[1, 1] + A[2, 2] - 1.0)
+    k.assume(ca <= -0.999)
+    k.assume(ca > -1)
+
+    def regular(A_):
+        from vk import npshim
+
+        c = 0.5 * (A_[0, 0] + A_[1, 1] + A_[2, 2] - 1.0)
+        with npshim.active(True) if k.sym else _null():
+            ang = r_.np.arccos(c)
+            fac = ang / r_.np.sqrt(1.0 - c * c)
+        return 0.5 * np.array([A_[2, 1] - A_[1, 2], A_[0, 2] - A_[2, 0], A_[1, 0] - A_[0, 1]]) * fac
+
+    k.prove_eq("Log_SO3_A = d(regular Log formula)/dA", rot.Log_SO3_A(A), k.jac(regular, A), tol=1e-4)
+
+
+class _null:
+    def __enter__(self):
+        return self
+
+    def __exit__(self, *a):
+        return False
 
 
 @contract("C03", "Log_SO3_A/at-zero-angle", timeout=120)
